@@ -103,6 +103,9 @@ def gen_design(r, ncells=None, nlibs=None):
             mine = []
             for j in range(r.randint(0, 2)):
                 bid = ident("bus")
+                if r.random() < 0.2:
+                    # identifiers that sanitising produces from names like p..q[0] or cnt_[0]: two underscores in a row, one at the end
+                    bid = r.choice([ident("p__q"), ident("cnt") + "_", ident("a_") + "__b"])
                 x = r.random()
                 bname = bid if x < 0.5 else (bid + "$o" if x < 0.8 else "%s[%d]" % (bid, r.randint(0, 3)))   # 2-D style base names
                 free_ = [sb for sb in shared_buses if sb not in mine]
